@@ -5,4 +5,7 @@ LEVEL = "proof"
 
 
 def contracts():
-    return jets.contracts()
+    from contracts import lifting
+
+    # the residual-based routine relies on lifted residuals being the total time derivatives (explicit time dependence included)
+    return jets.contracts() + [lifting.lift_contract("residual"), lifting.lift_contract("residual", via_max=True), lifting.residual_from_ode_contract()]
